@@ -128,14 +128,11 @@ def CueTextTokenizer(cue_text: str):
 
       elif state is _State.data_cref:
         if c == ord(";"):
-          coded_entity = str(buffer)
-          decoded_entity = html.unescape(coded_entity)
-          if decoded_entity == coded_entity :
-            result.extend(buffer)
-          else:
-            result.append(decoded_entity)
+          # html.unescape() leaves unknown references unchanged
+          result.append(html.unescape(str(buffer) + ";"))
           state = _State.data
-        elif c == EOF_MARKER:
+        elif c in (EOF_MARKER, ord("<"), ord("&"), 0x09, 0x0A, 0x0C, 0x20):
+          # not a character reference: the ampersand and what followed it are text
           result.extend(buffer)
           state = _State.data
           continue
